@@ -294,23 +294,20 @@ def coalesce : Str → List Chunk → List PendOoo → Str × List Chunk × List
   | buf, Chunk.ooo p :: cs, po => (buf, cs, po ++ [p])
   | buf, Chunk.sync s :: cs, po => coalesce (buf ++ s) cs po
 
+/-- the body of both `for chunk in chunks.rev()` loops: a `Sync` chunk is appended to the text,
+    any other chunk is `push_front`ed -/
+def spliceFn (acc : Str × List Chunk) (c : Chunk) : Str × List Chunk :=
+  match c with
+  | Chunk.sync r => (acc.1 ++ r, acc.2)
+  | c => (acc.1, c :: acc.2)
+
 /-- marker found: `for chunk in chunks.rev() { Sync ⇒ buf.push_str, other ⇒ held.push_front }` -/
 def spliceInPlace (chunks : List Chunk) : Str × List Chunk :=
-  chunks.reverse.foldl
-    (fun (acc : Str × List Chunk) c =>
-      match c with
-      | Chunk.sync r => (acc.1 ++ r, acc.2)
-      | c => (acc.1, c :: acc.2))
-    ([], [])
+  chunks.reverse.foldl spliceFn ([], [])
 
 /-- marker not found: `for chunk in chunks.rev() { Sync ⇒ sync_buf.push_str, other ⇒ this.chunks.push_front }` -/
 def spliceTemplate (chunks : List Chunk) (buf : Str) (deque : List Chunk) : Str × List Chunk :=
-  chunks.reverse.foldl
-    (fun (acc : Str × List Chunk) c =>
-      match c with
-      | Chunk.sync r => (acc.1 ++ r, acc.2)
-      | c => (acc.1, c :: acc.2))
-    (buf, deque)
+  chunks.reverse.foldl spliceFn (buf, deque)
 
 /-- what one activation of `poll_next` does: return (`ret`) or call itself again on the new state (`cont`);
     every `self.poll_next(cx)` of the source is a tail call -/
